@@ -22,7 +22,7 @@ SPEC = {
     "assumptions": ["vlib/prims.py operator semantics (shared by both sides, so an error there cancels out)",
                     "vlib/refeval.py reading of the documented source semantics", "vlib/avm.py control/stack/scratch/frame semantics"],
     "min_evaluations": {"quick": 8000, "thorough": 100000},
-    "must_reach": ["agree_approve", "agree_reject", "agree_fail", "mode_sig", "mode_app", "skeleton_cases", "loops_iterated_2plus"],
+    "must_reach": ["agree_approve", "agree_reject", "agree_fail", "mode_sig", "mode_app", "skeleton_cases", "loops_iterated_2plus", "object_compiled_twice"],
     "shard_timeout": {"quick": 600, "thorough": 7200},
 }
 
@@ -64,8 +64,13 @@ def check_recipe(acc, recipe, versions, ctxs, origin, check_san=True):
         refs.append(ref)
     if refeval.nontrivial(cov):
         acc.nontrivial.add(key)
-    for v in versions:
-        c = rcase.compile_recipe(recipe, v, recipe["mode"], scratch_slots=False)
+    for vi, v in enumerate(versions):
+        # every third compilation reuses one expression object: it is first compiled at another version (which may fail)
+        first = None
+        if (int(key, 16) + vi) % 3 == 0:
+            first = [2, 5, 6, 8, 10][(int(key, 16) >> 8) % 5]
+            acc.counters["object_compiled_twice"] += 1
+        c = rcase.compile_recipe(recipe, v, recipe["mode"], scratch_slots=False, first_version=first)
         if c.prog is None:
             if c.pt_error:
                 acc.counters["compile_rejected:" + c.errtype] += 1
